@@ -163,7 +163,7 @@ def build_cases(thorough):
             cols[col] = v
             cases.append(("net", [("eth0", cols), ("lo", [1] * 16)]))
     names = list(DEVS)
-    dmax = 4 if thorough else 2
+    dmax = 5 if thorough else 2
     for layout in (14, 18, 20, 7, 15):
         for n in range(0, dmax + 1):
             for combo in itertools.combinations(names, n):
